@@ -44,6 +44,8 @@
        for ever (every poll returns nb zero-length datagrams, later batches are starved);
        `break` after a drop ==> poll returns Pending with input queued and no waker.
    TLC refutes OutIsPrefixOfExpected and QuiescentMeansDrained for Fixed = FALSE.
+   ExactTail = FALSE is a what-if on take_segments' remainder rule (see RestIsSingle); TLC refutes
+   BoundariesKept for it: the expectation is per datagram (identity, offset and length of each).
 
    Driver discipline (noq's endpoint driver): it polls again after Ready and after a wake-up,
    and otherwise sleeps.  `Quiescent` is the state in which it sleeps. *)
@@ -52,6 +54,8 @@ CONSTANTS Lens, Segs,       \* a batch that may arrive is [len \in Lens, seg \in
           MaxArrive,        \* bound on the number of arrivals
           BufLens, NBufs,   \* buffer length (fixed per behaviour) and buffer counts per poll
           Fixed,            \* TRUE: required loop; FALSE: loop as written
+          ExactTail,        \* TRUE: take_segments clears the remainder's segment size iff the remainder is ONE
+                            \* datagram (rest <= seg, the code); FALSE: iff rest \div seg <= 1 (what-if, refuted)
           ArriveDuringPoll, \* TRUE: arrivals interleave with the slots of a running poll
           MayClose,         \* TRUE: the channel may be closed
           Record, MaxSteps  \* behaviour generator: record `hist`, bound its length
@@ -81,6 +85,11 @@ Pieces(idx, off, len, seg) ==
 
 Fits(n) == n <= buflen
 
+\* "If this left our batch with only one more datagram, then remove the segment size": the remainder
+\* keeps its segment size exactly when it still holds more than one datagram.  With the loose rule a
+\* remainder of one full segment plus a shorter tail (seg < rest < 2 seg) loses it and the two
+\* datagrams are later handed out merged (stride = len) or dropped together.
+RestIsSingle(restLen, seg) == IF ExactTail THEN restLen <= seg ELSE restLen \div seg <= 1
 \* Datagrams::take_segments(n) on the pending item p: <<taken, rest>>
 Take(p, n) ==
   IF p.seg = 0
@@ -90,7 +99,7 @@ Take(p, n) ==
              restLen == p.len - t
              isBatch == n > 1 /\ p.seg < t
          IN << [len |-> t, seg |-> IF isBatch THEN p.seg ELSE 0, idx |-> p.idx, off |-> p.off],
-               [len |-> restLen, seg |-> IF restLen <= p.seg THEN 0 ELSE p.seg, idx |-> p.idx, off |-> p.off + t] >>
+               [len |-> restLen, seg |-> IF RestIsSingle(restLen, p.seg) THEN 0 ELSE p.seg, idx |-> p.idx, off |-> p.off + t] >>
 
 \* num_segments computed by poll_recv for item p
 NumSegments(p) == LET n0 == IF p.seg = 0 THEN 1 ELSE buflen \div p.seg
@@ -195,6 +204,9 @@ DrainedMeansAllDelivered == (pc = "idle" /\ ~Queued /\ lastPoll # "closed") => o
 ClosedLosesOnlyLastPoll == lastPoll = "closed" =>
                              /\ IsPrefix(out, expect) /\ ~Queued
                              /\ Len(out) + lostAtClose = Len(expect)
+\* datagram boundaries survive re-batching: every piece handed to QUIC (a slot cut at its stride) is one
+\* whole datagram of its batch - same start offset, same length - never two merged, never a fragment
+BoundariesKept == \A i \in 1..Len(out) : \E j \in 1..Len(expect) : out[i] = expect[j]
 \* the channel never holds a registered waker together with queued batches (tokio mpsc contract)
 WakerOnlyWhenEmpty == waker => chan = <<>>
 \* a poll uses at most nb slots and every used slot carries at least one byte
